@@ -54,7 +54,7 @@ class C03(Plugin):
     gen = ["Consts", "Phases"]
     n_quick = 3000
     n_thorough = 60000
-    case_timeout = 60
+    case_timeout = 30
     model_chunk = 2000
     rule = ("k=0: stacks of open elements over the implied-end-tag names and others, with every exclude value: real "
             "generateImpliedEndTags vs model; k=1: tag soup, nested markup, random bytes/str, every start and end tag "
@@ -134,6 +134,10 @@ class C03(Plugin):
                         "scripting": False, "markup": m})
         for i, m in enumerate(gen_markup.foreign_directed()):
             out.append({"k": 1, "tree": "dom" if i % 2 else "etree", "ns": i % 5 != 0, "fragment": False, "container": "div",
+                        "scripting": False, "markup": m})
+        for i, m in enumerate(gen_markup.closers_directed(gen_markup.dispatch_keys()) + gen_markup.reopen_directed() +
+                              gen_markup.foreign_attrs_directed()):
+            out.append({"k": 1, "tree": "dom" if i % 2 else "etree", "ns": i % 5 != 0, "fragment": i % 7 == 0, "container": "div",
                         "scripting": False, "markup": m})
         for ex in [None] + IMPLIED:
             out.append({"k": 0, "stack": ["div"] + IMPLIED * 2, "exclude": ex})
